@@ -14,6 +14,7 @@ package main
 //   go T / poll T               release T to its next park point / look at T again
 //   patch K STATUS | del K | shiftexp HOW | shiftm HOW STATUS | state      synchronous requests
 //   shiftmm HOW MAX STATUS      ShiftMatchingTreasures with MaxResults = MAX (at most min(HOW, MAX) records)
+//   shiftw HOW LO HI STATUS     ShiftMatchingTreasures with FromTime = base+LO s, ToTime = base+HI s on the expiration time: [LO, HI)
 //   replies: T@<point> | T@guard (queued on a record guard) | T stuck (no progress within the step timeout) |
 //            T done <result>;  result: keys=[k:status,…] (in returned order) | patched=[k:CODE,…] | DELETED/NOT_FOUND
 //            state → idx=[keys of the expiration index, ascending] keys=[k:status,… sorted]
@@ -142,6 +143,10 @@ func c11Gen(rng *rand.Rand, tier string, w *bufio.Writer) {
 				fmt.Fprintf(w, "shiftm %d %s\n", 1+rng.Intn(2), sts[rng.Intn(2)])
 			case r < 82:
 				fmt.Fprintf(w, "shiftmm %d %d %s\n", 1+rng.Intn(3), 1+rng.Intn(2), sts[rng.Intn(2)])
+			case r < 86:
+				// a time window whose bounds are expiration times of seeded records (both ends of [lo, hi) are hit)
+				lo := -3600 + 100*rng.Intn(n)
+				fmt.Fprintf(w, "shiftw %d %d %d %s\n", 1+rng.Intn(3), lo, lo+100*(1+rng.Intn(3)), sts[rng.Intn(2)])
 			case r < 90:
 				fmt.Fprintf(w, "del %s\n", keys[rng.Intn(n)])
 			default:
@@ -273,6 +278,17 @@ func (st *c11State) doShiftMM(how, max int, status string) string {
 	return "keys=" + c11Keys(resp.GetTreasures())
 }
 
+// doShiftW: ShiftMatching with a time window on the expiration time, [FromTime, ToTime)
+func (st *c11State) doShiftW(how, lo, hi int, status string) string {
+	resp, err := st.rig.GW.ShiftMatchingTreasures(context.Background(), &hydrapb.ShiftMatchingTreasuresRequest{IslandID: 1, SwampName: st.swamp,
+		IndexType: hydrapb.IndexType_EXPIRATION_TIME, OrderType: hydrapb.OrderType_ASC, HowMany: int32(how), FromTime: st.ts(lo), ToTime: st.ts(hi),
+		Filters: st.filter(status)})
+	if err != nil || resp == nil {
+		return "ERR"
+	}
+	return "keys=" + c11Keys(resp.GetTreasures())
+}
+
 func (st *c11State) doShiftExp(how int) string {
 	resp, err := st.rig.GW.ShiftExpiredTreasures(context.Background(), &hydrapb.ShiftExpiredTreasuresRequest{IslandID: 1, SwampName: st.swamp, HowMany: int32(how)})
 	if err != nil || resp == nil {
@@ -321,8 +337,19 @@ func (st *c11State) state() string {
 	if r, err := st.rig.GW.GetByIndex(context.Background(), &hydrapb.GetByIndexRequest{IslandID: 1, SwampName: st.swamp,
 		IndexType: hydrapb.IndexType_EXPIRATION_TIME, OrderType: hydrapb.OrderType_ASC, From: 0, Limit: 0}); err == nil && r != nil {
 		ks := make([]string, len(r.GetTreasures()))
-		for i, t := range r.GetTreasures() {
+		ts := r.GetTreasures()
+		for i, t := range ts {
 			ks[i] = t.GetKey()
+		}
+		// records with the same expiration time have no specified order among themselves: each run of equal times
+		// is printed sorted by key
+		for i := 0; i < len(ts); {
+			j := i + 1
+			for j < len(ts) && ts[j].GetExpiredAt().AsTime().Equal(ts[i].GetExpiredAt().AsTime()) {
+				j++
+			}
+			sort.Strings(ks[i:j])
+			i = j
 		}
 		idx = "[" + strings.Join(ks, ",") + "]"
 	}
@@ -654,6 +681,8 @@ func c11Run(in *bufio.Scanner, w *bufio.Writer) {
 			fmt.Fprintln(w, st.sync(func() string { return st.doShiftM(atoi(f[1]), f[2]) }))
 		case f[0] == "shiftmm" && len(f) == 4:
 			fmt.Fprintln(w, st.sync(func() string { return st.doShiftMM(atoi(f[1]), atoi(f[2]), f[3]) }))
+		case f[0] == "shiftw" && len(f) == 5:
+			fmt.Fprintln(w, st.sync(func() string { return st.doShiftW(atoi(f[1]), atoi(f[2]), atoi(f[3]), f[4]) }))
 		case f[0] == "state" && len(f) == 1:
 			fmt.Fprintln(w, st.sync(st.state))
 		case f[0] == "stress" && len(f) == 4:
